@@ -66,6 +66,50 @@ pub fn refusal_monitor(before: &Value, after: &Value, op_kind: &str, err: &str, 
     }
 }
 
+/// End of a request over the transactional (cloud) store.  Always prepares and commits; with
+/// `check` it also evaluates the transactional clauses of C10 and C11:
+/// * a refused request must not leave pending mutations (the daemon's handler panics on
+///   "stranded mutations" for temporary errors and would persist them for the others);
+/// * a crash between prepare and commit: a signer restored from the local store plus the
+///   mutations (what the cloud holds) must equal the live signer.
+pub fn end_cloud_request(w: &World, op_kind: &str, outcome: &str, check: bool, vios: &mut Vec<Vio>) {
+    if !w.cfg.cloud {
+        return;
+    }
+    let muts = w.prepare_request();
+    if check {
+        if let Some(m) = &muts {
+            if outcome.starts_with("err:") && !m.is_empty() {
+                let keys: Vec<String> = m.iter().map(|(k, _)| k.split('/').next().unwrap_or("").to_string()).collect::<std::collections::BTreeSet<_>>().into_iter().collect();
+                vios.push(Vio {
+                    prop: "C10",
+                    key: format!("C10:{}:stranded-mutations:{}", op_kind, keys.join("+")),
+                    what: format!("request {} was refused ({}) but the transactional store ended the request with {} pending mutation(s) on {:?}", op_kind, outcome, m.len(), m.iter().map(|(k, _)| k.clone()).collect::<Vec<_>>()),
+                });
+            }
+            if !m.is_empty() {
+                let live = durable_view(&w.snapshot_live());
+                match crate::ev::catch(|| durable_view(&w.clone_restored_with(m).snapshot_live())) {
+                    Ok(restored) =>
+                        if let Some(d) = json_diff(&live, &restored) {
+                            vios.push(Vio {
+                                prop: "C11",
+                                key: format!("C11:{}:between-prepare-and-commit:{}", op_kind, path_class(&d, 5)),
+                                what: format!("after {} ({}) a signer restored from the local store plus the prepared mutations differs from the live one (live -> restored): {}", op_kind, outcome, d),
+                            });
+                        },
+                    Err(p) => vios.push(Vio {
+                        prop: "C11",
+                        key: format!("C11:restore-panics:between-prepare-and-commit:{}", op_kind),
+                        what: format!("restoring from local store + prepared mutations after {} panicked: {}", op_kind, p),
+                    }),
+                }
+            }
+        }
+    }
+    w.commit_request();
+}
+
 /// The view the C11 statement lists, extracted from a live snapshot.
 pub fn durable_view(live: &Value) -> Value {
     let node = &live["node"];
